@@ -121,11 +121,15 @@ impl<Body> AmendedRequest<Body> {
     }
 
     pub fn headers(&self) -> impl Iterator<Item = (&HeaderName, &HeaderValue)> {
-        self.headers
+        // The unset applies to the headers of the original request only,
+        // not to the ones explicitly added on top of it.
+        let inherited = self
+            .request
+            .headers()
             .iter()
-            .map(|v| (&v.0, &v.1))
-            .chain(self.request.headers().iter())
-            .filter(|v| !self.unset.iter().any(|x| x == v.0))
+            .filter(|v| !self.unset.iter().any(|x| x == v.0));
+
+        self.headers.iter().map(|v| (&v.0, &v.1)).chain(inherited)
     }
 
     fn headers_get_all(&self, key: &'static str) -> impl Iterator<Item = &HeaderValue> {
